@@ -274,6 +274,10 @@ func RunCluster(t *testing.T, cs *ClusterScenario) []*Result {
 				if !in.alive {
 					continue
 				}
+				// instances never act in the very same nanosecond (equal log timestamps across instances exist only
+				// under virtual time; nflog's keep-the-first tie rule would make them diverge: DESIGN I5)
+				time.Sleep(7 * time.Nanosecond)
+				now = time.Now()
 				switch op.Kind {
 				case "alert":
 					ls := toLS(sc.LabelSets[op.LS])
@@ -427,7 +431,9 @@ func MonitorC08(cs *ClusterScenario, results []*Result) []vh.Violation {
 				if d < 0 {
 					d = -d
 				}
-				if g != nil && d < g.RI && d < g.GI {
+				// "healthy" also means the last-positioned instance finishes its cluster wait well inside one group
+				// interval: otherwise its flush lags a whole interval behind the others (sigma >= peer timeout)
+				if g != nil && d < g.RI && d < g.GI && int64(cs.Cl.N-1)*cs.Cl.PeerTimeout+int64(5*time.Second) < g.GI {
 					// shape of the known weakness: between the two sends some instance delivered a DIFFERENT group
 					// state to the same integration, so the log entry covering the pending notification was superseded
 					lo, hi := a.T, b.T
